@@ -55,6 +55,34 @@ Theorem C10_reopen :
 Proof. intros W WOK. exact (@reopen_all W WOK). Qed.
 Print Assumptions C10_reopen.
 
+(* 1b. the same for EVERY commit of a history, reopened at ANY later point: the StateDB that
+   committed goes on writing and committing on the same database (histories l1, then the
+   commit, then l2); the roots that commit returned still open - to a state that shows
+   what the committing state showed at that commit - and so does the validator reader.
+   [DbTop]: every committed trie is stored under its own root (true of the empty database,
+   kept by every history). *)
+Theorem C10_reopen_any_commit :
+  forall (W : World) (WOK : WorldOk W) d s l1 de l2, DbOk d -> DbTop d -> Inv d s ->
+    let c := commit (fst (crun (d, s) l1)) de (snd (crun (d, s) l1)) in
+    let later := crun c l2 in
+    exists n r,
+      new_state (fst later) (fst (fst (roots (snd c)))) (snd (fst (roots (snd c)))) (snd (roots (snd c))) = Some n /\
+      new_reader (fst later) (snd (fst (roots (snd c)))) = Some r /\
+      state_eq (fst later) n (fst c) (snd c) /\ val_eq r (s_val (snd c)) /\ Inv (fst later) n.
+Proof. intros W WOK. exact (@reopen_any W WOK). Qed.
+Print Assumptions C10_reopen_any_commit.
+
+(* 1c. the Database's cache of committed tries (cachingDB.pastTries: live trie objects of
+   the committing StateDBs, looked up by re-hashing; Model.mopen_acct and its siblings) is transparent: over a
+   machine whose StateDBs have the invariant, state.New through the cache returns exactly
+   what it returns from the trie database.  (A cache keyed by the root a trie HAD when it
+   was committed would not be: the live trie has moved on - seeded regression C10_5.) *)
+Theorem C10_trie_cache_transparent :
+  forall (W : World) (WOK : WorldOk W) m ra rv rs n, MachineOk m ->
+    new_state (m_db m) ra rv rs = Some n -> mnew_state m ra rv rs = Some n.
+Proof. intros W WOK. exact (@cache_transparent W WOK). Qed.
+Print Assumptions C10_trie_cache_transparent.
+
 (* 2. roots depend only on content: two StateDBs, reached by any two histories
    (any order and grouping of writes, any placement of Finalise /
    IntermediateRoot / Commit, either flag, even over different databases), that
